@@ -229,6 +229,26 @@ def r_arguments_always_sent(r, prog):
     r.floor(1)
 
 
+def r_encoders_grow(r, prog):
+    """What is sent to a generator - the request and its arguments - is encoded into a growable buffer: no length of a valid command line or
+    program makes the encoder run out of space (a fixed-size target turns a long argument list into an end-of-buffer error after the
+    generator has already been started and sent the request)."""
+    n = 0
+    for name in ('slicec_bin::spawn_plugin_process', 'slicec_bin::encode_generate_code_request'):
+        f = prog.fn(name)
+        encs = [c for c in f.calls() if c.name() == 'encode' and 'encoder::Encoder' in (c.resolved or '') and not f.blocks[c.bb].get('cleanup')]
+        if not encs:
+            raise AnchorMissing('Encoder::encode calls in %s' % name)
+        for c in encs:
+            n += 1
+            tgt = c.targs[0] if c.targs else '?'
+            if 'VecOutputTarget' in tgt:
+                r.ok('%s encodes %s into a growable target' % (name.rsplit('::', 1)[-1], (c.targs[1] if len(c.targs) > 1 else '?').rsplit('::', 1)[-1]))
+            else:
+                r.finding('encoded-into-fixed-buffer:%s' % name.rsplit('::', 1)[-1], c.span, '%s encodes into %s: a value longer than that buffer fails with UnexpectedEob and never reaches the generator' % (name, tgt))
+    r.floor(4)
+
+
 def run(ctx):
     prog = ctx.prog
     ctx.run_rule('C19.1', 'T7', 'no undischarged panic site in plugin_parser', r_no_crash, prog)
@@ -236,6 +256,7 @@ def run(ctx):
     ctx.run_rule('C19.3', 'T9', 'the character loop consumes on every iteration', r_loop_progress, prog)
     ctx.run_rule('C19.4', 'T6', 'syntax tables: dispatch set, escape set, trimming and validation of trimmed values', r_syntax_tables, prog)
     ctx.run_rule('C19.8', 'T2', 'every started generator is sent its arguments dictionary after the request, also when it is empty', r_arguments_always_sent, prog)
+    ctx.run_rule('C19.9', 'T1', 'request and arguments are encoded into growable buffers (no length limit on a valid specification)', r_encoders_grow, prog)
     ctx.run_rule('C19.5', 'T1', 'arguments reach the generator unchanged and in order', r_arguments_unchanged, prog)
     ctx.run_rule('C19.6', 'T13', 'conditions under which plugin_parser opens a pair, switches state, trims, rejects and returns (precondition ledger)', r_plugin_parser_preconditions, prog)
     ctx.run_rule('C19.7', 'T6', 'rejection reasons, argument opening and no removal (decision table of plugin_parser)', decisions.r_plugin_parser_decisions, prog)
